@@ -121,7 +121,7 @@ func executeRun(t *testing.T, scn Scenario, c interface{}, tape *sched.Tape, pro
 	sim = sched.New(tape)
 	sim.KeepTrace = keepTrace
 	watchdogSim.Store(sim)
-	func() {
+	body := func(t *testing.T) {
 		defer func() {
 			if v := recover(); v != nil {
 				s := fmt.Sprint(v)
@@ -136,7 +136,15 @@ func executeRun(t *testing.T, scn Scenario, c interface{}, tape *sched.Tape, pro
 			out = scn.Execute(sim, c, prop, race)
 			sim.Stop()
 		})
-	}()
+	}
+	if race {
+		// the testing package ends the goroutine of a test whose bubble saw
+		// a race report; give each run a subtest of its own so that the
+		// worker loop survives
+		t.Run("run", body)
+	} else {
+		body(t)
+	}
 	watchdogSim.Store(nil)
 	if out != nil && out.Post != nil {
 		out.Post(out)
@@ -190,6 +198,9 @@ func workerMain(t *testing.T) {
 		seed := RunSeed(*fBase, scn.Name(), i)
 		fmt.Fprintf(os.Stderr, "BEGIN %d %d\n", i, seed)
 		rr := oneSeed(t, scn, seed, i, *fProperty, *fRace)
+		if os.Getenv("SIM_DEBUG") != "" {
+			fmt.Fprintf(os.Stderr, "AFTER %d failed=%v\n", i, t.Failed())
+		}
 		if *fHashOnly {
 			rr = &RunResult{Seed: seed, Index: i, Hash: rr.Hash, Steps: rr.Steps}
 		} else if samples < 3 {
